@@ -392,6 +392,9 @@ func ReducedStatements(extNames bool) []Stmt {
 		{Kind: KTask, Name: "a", Deps: []Arg{s("x.go"), s("y.go")}, Outs: []Arg{s("")}, Cmds: []string{"echo a", "echo b"}},
 		{Kind: KTask, Name: "q", Deps: []Arg{s(`C:\new\table`)}, Cmds: []string{`echo don't stop`}},
 		{Kind: KAssign, Name: "W", Text: `%s\t%d\n`},
+		// a variable that happens to be called like the keyword
+		{Kind: KAssign, Name: "task", Text: "x"},
+		{Kind: KAssign, Name: "task", IsCall: true, Fn: "join", Args: []Arg{s("a"), id("task")}},
 		// the keyword as an ordinary identifier where no definition can start
 		{Kind: KTask, Name: "all", Deps: []Arg{id("task"), s("x.go")}, Outs: []Arg{id("task")}, Cmds: []string{"echo task"}},
 		{Kind: KAssign, Name: "Y", IsCall: true, Fn: "join", Args: []Arg{id("task"), s("bin")}},
